@@ -148,19 +148,29 @@ def rule_shape(chk, head2, test2):
     # exits: early return only under allow_additional_fields; otherwise through the no-extras loop
     rets = common.returns_of(cfg)
     problems = []
+    from .. import exprs as X
+
+    def allow_edge(t, lab):
+        """taking this branch means allow_additional_fields is true"""
+        e, lab2 = X.strip_not(t.exprs[0], lab)
+        return common.is_self_attr(e, "allow_additional_fields") and lab2 == "true"
+    allow_edges = {(t, lab) for t in cfg.live if t.kind == "test" for lab in ("true", "false") if allow_edge(t, lab)}
     for r in rets:
-        g = [(unparse(t.exprs[0]), lab) for t, lab in cfg.guards_of(r) if t.kind == "test"]
-        if ("self.allow_additional_fields", "true") not in g:
+        if not any(allow_edge(t, lab) for t, lab in cfg.guards_of(r) if t.kind == "test"):
             problems.append("return at line %d is not guarded by allow_additional_fields" % r.lineno)
-    ok, wit = cfg.must_pass([cfg.entry], [cfg.exit], rets + [head2], avoid_edges=())
-    if not ok:
+    # when extras are not allowed (no allow-edge is taken) every normal path runs the no-extras loop
+    ok, wit = cfg.must_pass([cfg.entry], [cfg.exit], [head2], avoid_edges=allow_edges, skip_labels=("exc",))
+    if not ok or not allow_edges:
         problems.append("validate can finish without running the no-extras check: %s" % cfg.fmt_path(wit))
     if not cfg.precedes([head], [head2] + rets)[0]:
         problems.append("the declared-fields check does not come first")
     r2 = common.loop_region(cfg, head2)
     rs = [n for n in r2 if n.kind == "raise_stmt" and "ValidationError" in unparse(n.ast)]
     notin = isinstance(test2.exprs[0].ops[0], ast.NotIn)
-    if not rs or not all(cfg.edge_dominates(test2, "true" if notin else "false", n) for n in rs) or any(n.kind in ("break", "return", "continue") for n in r2):
+    declared_edge = (test2, "false" if notin else "true")     # the branch taken for a declared / reserved key
+    body2 = [s_ for s_, l in head2.succ if l == "body"]
+    every_undeclared_raises = bool(rs) and cfg.must_pass(body2, [head2, cfg.exit], rs, avoid_edges={declared_edge}, skip_labels=("exc",))[0]
+    if not every_undeclared_raises or not all(cfg.edge_dominates(test2, "true" if notin else "false", n) for n in rs) or any(n.kind in ("break", "return") for n in r2):
         problems.append("an undeclared field does not always raise ValidationError")
     chk.req(not problems, "C14.shape", "_MessageSerializer.validate:no-extras-unless-allowed", chk.where(v), good="exits: after the no-extras loop, or the early return under allow_additional_fields", fail="; ".join(problems))
     # Field.validate / forValue / forTypes
